@@ -177,6 +177,27 @@ type rawAttr struct {
 
 func (r rawAttr) AddTo(m *stun.Message) error { m.Add(r.t, r.v); return nil }
 
+// mappedPeerAttr puts an IPv4 peer on the wire as family 0x02 carrying ::ffff:a.b.c.d (pion/stun's own
+// encoder never emits that form: it turns every 16-byte IPv4 address back into family 0x01).  The server
+// must treat it as the same peer as the plain IPv4 encoding everywhere.
+type mappedPeerAttr struct {
+	ip4  net.IP
+	port int
+}
+
+func (a mappedPeerAttr) AddTo(m *stun.Message) error {
+	v := make([]byte, 4+16)
+	v[1] = 0x02
+	v[2], v[3] = byte(a.port>>8)^0x21, byte(a.port)^0x12
+	x := append([]byte{0x21, 0x12, 0xA4, 0x42}, m.TransactionID[:]...)
+	ip := a.ip4.To16()
+	for i := 0; i < 16; i++ {
+		v[4+i] = ip[i] ^ x[i]
+	}
+	m.Add(stun.AttrXORPeerAddress, v)
+	return nil
+}
+
 func attrStr(present, bad bool, val string) string {
 	if !present {
 		return "-"
@@ -316,7 +337,7 @@ func (h *h2Hist) peerAttr(c *h2Client) (present, bad bool, addr *net.UDPAddr, s 
 	p := h.goodPeer(c, false)
 	ip := p.IP
 	if v4 := ip.To4(); v4 != nil && h.rng.Intn(3) == 0 {
-		ip = v4.To16() // IPv4-mapped 16-byte form must behave identically
+		return true, false, p, mappedPeerAttr{v4, p.Port} // IPv4-mapped form on the wire must behave identically
 	}
 	return true, false, p, proto.PeerAddress{IP: ip, Port: p.Port}
 }
